@@ -372,6 +372,10 @@ var twin2Corpus = [][4]string{
 	{"+proj=longlat +a=6378137 +rf=298.25 +towgs84=1,2,3", "+proj=longlat +a=6378137 +rf=298.25 +towgs84=1,2,3 +lat_0=12", "5", "5"},
 	{"+proj=longlat +a=6378137 +rf=298.25 +towgs84=1,2,3", "+proj=longlat +a=6378137 +rf=298.25 +towgs84=1,2,3,0,0,0,2.5", "5", "5"},
 	{"+proj=tmerc +lat_0=0 +lon_0=9 +k=0.9996 +x_0=500000 +y_0=0 +a=6378137 +rf=298.257223563", "+proj=tmerc +lat_0=0 +lon_0=9 +k=0.9996 +x_0=500000 +y_0=0 +a=6378137 +rf=298.257223563 +zone=32", "10", "50"},
+	// references that differ in ONE boolean field only (UTMSouth, NoDefs): not Equal; north and south zones are 10 000 km apart
+	{"+proj=utm +zone=33 +ellps=WGS84 +datum=WGS84 +units=m", "+proj=utm +zone=33 +south +ellps=WGS84 +datum=WGS84 +units=m", "15", "-30"},
+	{"+proj=utm +zone=19 +south +ellps=GRS80 +towgs84=1,2,3 +units=m", "+proj=utm +zone=19 +ellps=GRS80 +towgs84=1,2,3 +units=m", "-69", "-20"},
+	{"+proj=longlat +a=6378137 +rf=298.25 +towgs84=1,2,3", "+proj=longlat +a=6378137 +rf=298.25 +towgs84=1,2,3 +no_defs", "5", "5"},
 	// two realisations of a datum on one ellipsoid: equal-length shift lists with different values
 	{"+proj=longlat +a=6377397.155 +rf=299.1528128 +towgs84=598.1,73.7,418.2,0.202,0.045,-2.455,6.7 +no_defs", "+proj=longlat +a=6377397.155 +rf=299.1528128 +towgs84=582,105,414,1.04,0.35,-3.08,8.3 +no_defs", "13.4", "52.5"},
 	{"+proj=longlat +a=6377397.155 +rf=299.1528128 +towgs84=598.1,73.7,418.2 +no_defs", "+proj=longlat +a=6377397.155 +rf=299.1528128 +towgs84=598.1,73.7,418.3 +no_defs", "13.4", "52.5"},
@@ -545,6 +549,11 @@ func gen(seed uint64, tier string) {
 		fmt.Fprintf(w, "prj %s\n", hx(s))
 	}
 	fmt.Fprintf(w, "prj %s\n", hx(rawCorpus[37]+"\n"))
+	// .prj files around the sizes where buffered / truncated reads slip: 1 KiB, 2 KiB, 4 KiB, 64 KiB
+	for i, n := range []int{1023, 1024, 1025, 2047, 2049, 4097, 65537} {
+		k := []string{"lcc", "tmerc", "aea", "merc", "eqdc", "geog"}[i%6]
+		fmt.Fprintf(w, "prjcrs %d %s\n", n, strings.Join(strings.Fields(crsTokens(r, k))[:16], " "))
+	}
 	nCrs, nMut := 1500, 1200
 	if tier == "thorough" {
 		nCrs, nMut = 40000, 30000
